@@ -8,3 +8,4 @@ CONSTANTS
   BC <- SBC
   BBit <- SBBit
   BBase <- SBBase
+  BHas <- SBHas
